@@ -499,7 +499,7 @@ def _forced_conflict(draw, base):
     shape = draw(st.sampled_from(["del_vs_edit", "edit_vs_del", "both_edit_source", "both_edit_outputs", "both_edit_meta",
                                   "both_insert_same_pos", "both_insert_similar", "insert_next_to_edit", "insert_next_to_del",
                                   "both_append_nonl", "both_attach", "both_nbmeta", "both_minor", "both_del", "both_ec",
-                                  "both_same_edit", "both_edit_same_output", "both_edit_same_output"]))
+                                  "both_same_edit", "both_edit_same_output", "both_edit_same_output", "transient_meta"]))
     usedl, usedr = _ids(l), _ids(r)
     if n == 0 or shape in ("both_insert_same_pos", "both_insert_similar"):
         i = draw(st.integers(0, n))
@@ -557,6 +557,23 @@ def _forced_conflict(draw, base):
                     so.insert(j, draw(output()))
                 elif extra == "del_other" and len(so) > 1:
                     del so[(j + 1) % len(so)]
+    elif shape == "transient_meta":
+        # keys the merger treats as transient: collapsed / scrolled (/ autoscroll): remove on one side, change on the other ...
+        key = draw(st.sampled_from(["collapsed", "scrolled"])) if c["cell_type"] == "code" else "collapsed"
+        vals = [True, False] if key == "collapsed" or c["cell_type"] != "code" else [True, False, "auto"]
+        if c["cell_type"] == "code":
+            v0 = draw(st.sampled_from(vals))
+            for nb_ in (base, l, r):
+                nb_["cells"][i]["metadata"][key] = v0
+            for side in (l, r):
+                act = draw(st.sampled_from(["remove", "change", "change", "keep"]))
+                if act == "remove":
+                    del side["cells"][i]["metadata"][key]
+                elif act == "change":
+                    side["cells"][i]["metadata"][key] = draw(st.sampled_from([v for v in vals if v != v0]))
+        else:
+            l["cells"][i] = draw(edit_cell(c, minor, ["metadata"]))
+            r["cells"][i] = draw(edit_cell(c, minor, ["metadata"]))
     elif shape == "both_attach":
         l["cells"][i] = draw(edit_cell(c, minor, ["attach"]))
         r["cells"][i] = draw(edit_cell(c, minor, ["attach"]))
